@@ -38,6 +38,12 @@ class Mini:
         self.tensors.append(t); self.names.append(name)
         if const is not None: self.data[len(self.tensors) - 1] = np.asarray(const)
         return len(self.tensors) - 1
+    def make_const(self, i, seed=3):
+        """turn activation tensor i into a constant (its own buffer gets deterministic float32 content)"""
+        t = self.tensors[i]; arr = _weights(tuple(int(d) for d in t.shape), seed)
+        self.buffers[t.buffer].data = np.frombuffer(arr.tobytes(), dtype=np.uint8); self.data[i] = arr
+        return arr
+    def has_data(self, i): return self.buffers[self.tensors[i].buffer].data is not None
     def wire(self, inputs, outputs):
         self.op.inputs = np.array(inputs, dtype=np.int32); self.op.outputs = np.array(outputs, dtype=np.int32); self.op.opcodeIndex = 0
         return self
